@@ -88,8 +88,14 @@ def ofRat (F : Type) [FloatLike F] (r : Rat) : F :=
 
 def hexDigit (n : Nat) : Char := (Nat.toDigits 16 n).headD '0'
 
+/-- is the bit pattern a NaN (exponent all ones, mantissa non-zero)? -/
+def isNanBits (F : Type) [FloatLike F] (b : Nat) : Bool :=
+  (b / 2 ^ mantBits F) % 2 ^ expBits F == 2 ^ expBits F - 1 && b % 2 ^ mantBits F != 0
+
 def render (f : F) : String :=
-  let b := toBitsNat f
+  -- one bit pattern for every NaN (quiet, positive, empty payload): sign and payload of a NaN are not part of any property
+  let b0 := toBitsNat f
+  let b := if isNanBits F b0 then (2 ^ expBits F - 1) * 2 ^ mantBits F + 2 ^ (mantBits F - 1) else b0
   let digits := totalBits F / 4
   let ds := (List.range digits).map (fun i => hexDigit ((b / 16 ^ (digits - 1 - i)) % 16))
   String.ofList (tag F :: ds)
